@@ -41,9 +41,6 @@ impl Collector {
             }
         }
     }
-    pub fn classes(&self) -> usize {
-        self.m.lock().unwrap().len()
-    }
     pub fn flush(&self, ctx: &Ctx) {
         let g = self.m.lock().unwrap();
         for (k, e) in g.iter() {
